@@ -343,6 +343,7 @@ func (db *DB) newStreamWriter(ctx context.Context, cfgs ...WriterConfig) (w *str
 		WriterConfig: cfg,
 		internal:     make([]*idxWriter, 0, len(domainWriters)),
 		relay:        db.relay.inlet,
+		relayClosed:  db.relay.closed,
 		virtual:      &virtualWriter{internal: virtualWriters, digestKey: db.mu.digests.key},
 		keyToIdx:     keyToIdx,
 		updateDBControl: func(ctx context.Context, update ControlUpdate) error {
